@@ -324,6 +324,16 @@ func genNC(prop string, r *sim.Rng) *ncCase {
 			}
 		}
 	}
+	// one session in eight (C08): a LATE reply that is large (more than 64 KiB, arriving in several
+	// reads) with the reply to the current request directly behind it
+	bigLate := false
+	if prop == "C08" && len(c.Ops) >= 2 && r.Chance(1, 8) {
+		i := r.Intn(len(c.Ops) - 1)
+		c.Ops[i].Beh = 1
+		c.Ops[i+1].Beh = 0
+		c.Ops[i].Body = "<data>" + strings.Repeat("<interface>GigabitEthernet0/0/1</interface>", 1700+r.Intn(600)) + "</data>"
+		bigLate = true
+	}
 	// read segmentation: server messages are emitted as single atoms, so one read never carries
 	// bytes of two messages; cuts inside a message are arbitrary
 	switch r.Intn(4) {
@@ -337,6 +347,10 @@ func genNC(prop string, r *sim.Rng) *ncCase {
 			c.Segs = append(c.Segs, []int{1, 2, 5, 17, 64, 300, 8192}[r.Intn(7)])
 		}
 		c.DefSeg = []int{0, 3, 50}[r.Intn(3)]
+	}
+	if bigLate {
+		c.Segs, c.DefSeg = nil, []int{8192, 8192, 4096}[r.Intn(3)]
+		c.ChunkMode = []int{0, 2}[r.Intn(2)]
 	}
 	// the timeout must leave room for the volume of data at this read granularity (a per-read
 	// delay plus scheduling cost, generously 0.4 ms per read) -- otherwise a "timeout" would only
